@@ -4,9 +4,12 @@ spec: coq/spec/BuilderErrS.v).
 A case describes a builder program: a well-formed prefix (random nesting of Dfg / Cfg blocks /
 Conditional cases / TailLoop / functions in a module) followed by ONE call that is either consistent or
 carries one inconsistency of the property's classes.  observe() interprets the description on the real
-builders through their public API, catches the exception of the final call and reads back the part of
-the builder state that call depends on (hierarchy as a parent table, tracked list, ...).  The Coq side
-evaluates the model (corr) and the specification's inconsistency predicates (mon) on it."""
+builders through their PUBLIC API only, catches the exception of the final call and reads back the part of
+the builder state that call depends on (hierarchy as a parent table via hugr[n].parent, the public `tracked`
+list, ...).  The Coq side evaluates the model (corr) and the specification's inconsistency predicates (mon)
+on it.  Nothing private is read for a verdict; comparisons the property does not promise (state after a
+refusal, order edges of accepted wires, private bookkeeping) are DIAGNOSTICS in the evidence
+("diagnostic only, no verdict: ..." in input_distribution), never verdicts."""
 import json
 
 import fw
@@ -48,12 +51,27 @@ def custom(n_in, outs, name="op"):
     return ops.Custom(name, tys.FunctionType([tys.Qubit] * n_in, list(outs)), extension="verif.c13")
 
 
+def exc_class(e):
+    """The observed class: the first class of the exception's MRO the property knows (a subclass of the
+    documented class IS the documented error), else the bare class name (-> XOther: some other error)."""
+    for c in type(e).__mro__:
+        if c.__name__ in CLASSES:
+            return c.__name__
+    return type(e).__name__
+
+
 def catch(f):
     try:
         f()
         return None
     except Exception as e:  # noqa: BLE001 - the exception class is the observation
-        return type(e).__name__
+        return exc_class(e)
+
+
+def tid(T, name):
+    """A type as 16 * (class of the type under Python's ==, the comparison the builders use) + spelling:
+    rows that are == but spelled differently (Unit / Tuple(), Bool / Sum([[], []])) are recognisable."""
+    return 16 * T(mk_type(name)) + TYPES.index(name)
 
 
 def is_int(a):
@@ -209,45 +227,80 @@ class Tree:
         i = idx[case["src"] % len(idx)]
         return self.sources[i], self.tags.get(i, "plain")
 
-    def ptable(self):
-        out = []
-        for pos, n in enumerate(self.hugr):
-            assert n.idx == pos
-            p = self.hugr[n].parent
-            out.append(None if p is None else p.idx)
-        return out
+
+def hierarchy(h, virtual_parent=None):
+    """The hierarchy of HUGR h as a parent table over CANONICAL node names: nodes are named by their rank in
+    the order (depth, index), so parents always precede children whatever indices the implementation
+    allocates (the property does not prescribe them).  virtual_parent: parent index of one extra node that
+    is not in the HUGR (the operation a refused add_op did not record) - it gets the key "virtual".
+    Returns (table, name) with name: implementation index (or "virtual") -> canonical name."""
+    par = {}
+    for n in h:
+        p = h[n].parent
+        par[n.idx] = None if p is None else p.idx
+    if virtual_parent is not None:
+        par["virtual"] = virtual_parent
+
+    def dep(k):
+        d, seen = 0, set()
+        while par.get(k) is not None and k not in seen:
+            seen.add(k)
+            k = par[k]
+            d += 1
+        return d
+    order = sorted(par, key=lambda k: (dep(k), 1 if k == "virtual" else 0, k if k != "virtual" else 0))
+    name = {k: i for i, k in enumerate(order)}
+    return [None if par[k] is None else name[par[k]] for k in order], name
+
+
+def order_edges(h):
+    return set((a.idx, b.idx) for a in h for b in h.outgoing_order_links(a))
 
 
 def obs_wire(case):
     t = Tree(case["root"])
     for s in case["steps"]:
         t.step(s)
-    tb, tkind = t.builders[case["tgt"] % len(t.builders)]
+    ti = case["tgt"] % len(t.builders)
+    tb, tkind = t.builders[ti]
     (node, off, pk), stag = t.pick_source(case)
     h = t.hugr
-    before = len(h)
-    orders_before = set((a.idx, b.idx) for a in h for b in h.outgoing_order_links(a))
-    via = case["via"] if tkind == "dfg" else "add_op"
+    before = set(n.idx for n in h)
+    orders_before = order_edges(h)
+    # Dfg.set_outputs is an entry point only while the builder's outputs are not set yet (setting the
+    # outputs of one graph twice is outside the property)
+    via = case["via"] if tkind == "dfg" and ti not in t.closed else "add_op"
     if via == "set_outputs":
         exc = catch(lambda: tb.set_outputs(node.out(off)))
         tgt = tb.output_node.idx
     else:
-        exc = catch(lambda: tb.add_op(custom(1, []), node.out(off)))
-        tgt = before if len(h) > before else None
-    orders = sorted(set((a.idx, b.idx) for a in h for b in h.outgoing_order_links(a)) - orders_before)
+        op = custom(1, [])
+        exc = catch(lambda: tb.add_op(op, node.out(off)))
+        new = [n for n in h if n.idx not in before]
+        if len(new) > 1:
+            new = [n for n in new if h[n].op is op]
+        # a refusal may come before or after the operation was recorded: the wire's target is the
+        # operation in builder tb either way
+        tgt = new[0].idx if len(new) == 1 else "virtual"
+    pt, name = hierarchy(h, tb.parent_node.idx if tgt == "virtual" else None)
+    orders = sorted((name[a], name[b]) for a, b in order_edges(h) - orders_before)
     blk = None
     if tkind == "block":
-        blk = [h.root.idx, h[tb.parent_node].parent.idx]
-    pt = t.ptable()
-    sib, a = False, tgt
-    while a is not None and pt[a] is not None:        # statistics only (the monitor decides in Coq)
-        if pt[a] == pt[node.idx]:
+        blk = [name[h.root.idx], name[h[tb.parent_node].parent.idx]]
+    src_c, tgt_c = name[node.idx], name[tgt]
+    sib, a = False, tgt_c                             # statistics / diagnostics only (the monitor decides in Coq)
+    while a is not None and pt[a] is not None:
+        if pt[a] == pt[src_c]:
             sib = True
             break
         a = pt[a]
-    return {"exc": exc, "pt": pt, "src": node.idx, "tgt": tgt, "k": pk, "blk": blk, "sib": sib,
-            "order": orders[0] if len(orders) == 1 else (None if not orders else [-1, -1]),
-            "stag": stag, "tkind": tkind, "via": via, "depth_tgt": depth(t.ptable(), tgt), "depth_src": depth(t.ptable(), node.idx)}
+    diag = {}
+    if exc is None:
+        want = [(src_c, a)] if sib and a != tgt_c else []
+        diag["accepted wire: the new state-order edges are the model's (source -> sibling ancestor)"] = orders == want
+    return {"exc": exc, "pt": pt, "src": src_c, "tgt": tgt_c, "k": pk, "blk": blk, "sib": sib,
+            "order": orders, "inter": exc is None and sib and a != tgt_c, "recorded": tgt != "virtual", "diag": diag,
+            "stag": stag, "tkind": tkind, "via": via, "depth_tgt": depth(pt, tgt_c), "depth_src": depth(pt, src_c)}
 
 
 def depth(pt, n):
@@ -277,7 +330,21 @@ def make_row(b, row):
     return [n.out(i) for i in range(len(row))]
 
 
+def private_built_flags(cond):
+    """DIAGNOSTIC only: the builder's private bookkeeping, if it still has the shape known at design time
+    (`_case_builders: list[tuple[Case, bool]]`).  None when it has any other shape.  Never part of a verdict."""
+    try:
+        return [bool(b) for _, b in cond._case_builders]
+    except Exception:  # noqa: BLE001
+        return None
+
+
 def obs_cond(case, T):
+    """A session on one Conditional.  What is recorded is only what the public calls do: add_case(i),
+    Case.set_outputs, __exit__ (leaving the context).  At most one set_outputs per case builder (setting
+    the outputs of one graph twice is outside the property).  After the session every index 0..n-1 is
+    probed with add_case: it is refused iff that case was handed out before - the public view of which
+    cases count as built (a refused call must not have marked anything)."""
     from hugr import tys
     from hugr.build.cond_loop import Conditional
     variants = [[mk_type(t) for t in r] for r in case["variants"]]
@@ -290,6 +357,7 @@ def obs_cond(case, T):
         sw = inner.add_op(custom(0, [sum_ty] + others, "mk"))
         cond = inner.add_conditional(*[sw.out(i) for i in range(1 + len(others))])
     cases = []
+    outs_set = set()
     res = []
     ops_lit = []
     for o in case["ops"]:
@@ -301,25 +369,40 @@ def obs_cond(case, T):
         elif o[0] == "set_outputs":
             if not cases:
                 continue
-            c = cases[o[1] % len(cases)]
+            ci = o[1] % len(cases)
+            if ci in outs_set:
+                continue
+            outs_set.add(ci)
+            c = cases[ci]
             row = o[2]
             res.append(catch(lambda: c.set_outputs(*make_row(c, row))))
-            ops_lit.append(gapp("OSetOutputs", glist(gN(T(mk_type(t))) for t in row)))
+            ops_lit.append(gapp("OSetOutputs", glist(gN(tid(T, t)) for t in row)))
         else:
             res.append(catch(lambda: cond.__exit__(None, None, None)))
             ops_lit.append("OExit")
-    built = [bool(b) for _, b in cond._case_builders]
-    return {"res": res, "ops_lit": ops_lit, "built": built, "n": len(variants)}
+    private = private_built_flags(cond)
+    session = len(res)
+    for i in range(len(variants)):
+        res.append(catch(lambda: cond.add_case(i)))
+        ops_lit.append(gapp("OAddCase", gZ(i)))
+    built = [e is not None for e in res[session:]]
+    diag = {}
+    if private is not None:
+        diag["conditional: private built flags equal the publicly probed ones"] = private == built
+    return {"res": res, "ops_lit": ops_lit, "built": built, "n": len(variants), "session": session, "diag": diag}
 
 
 def obs_ifelse(case, T):
-    """add_if = add_conditional + add_case(1); add_else = add_case(0) on the same conditional."""
+    """add_if = add_conditional + add_case(1); add_else = add_case(0) on the same conditional.  The
+    Conditional behind an If is not reachable through the public API, so its context cannot be left here
+    ("exit" steps are skipped; kind "cond" exercises __exit__).  Final probe: one more add_else."""
     from hugr import tys
     _, inner, _ = nest(case["depth"])
     sw = inner.add_op(custom(0, [tys.Bool], "mk"))
     if_ = inner.add_if(sw.out(0), inner.inputs()[0])
     res, ops_lit = [None], [gapp("OAddCase", gZ(1))]
     holders = [if_]
+    outs_set = set()
     for o in case["ops"]:
         if o[0] == "add_else":
             def f():
@@ -327,16 +410,19 @@ def obs_ifelse(case, T):
             res.append(catch(f))
             ops_lit.append(gapp("OAddCase", gZ(0)))
         elif o[0] == "set_outputs":
-            c = holders[o[1] % len(holders)]
+            ci = o[1] % len(holders)
+            if ci in outs_set:
+                continue
+            outs_set.add(ci)
+            c = holders[ci]
             row = o[2]
             res.append(catch(lambda: c.set_outputs(*make_row(c, row))))
-            ops_lit.append(gapp("OSetOutputs", glist(gN(T(mk_type(t))) for t in row)))
-        else:
-            cond = if_._parent_conditional()
-            res.append(catch(lambda: cond.__exit__(None, None, None)))
-            ops_lit.append("OExit")
-    cond = if_._parent_conditional()
-    return {"res": res, "ops_lit": ops_lit, "built": [bool(b) for _, b in cond._case_builders], "n": 2}
+            ops_lit.append(gapp("OSetOutputs", glist(gN(tid(T, t)) for t in row)))
+    session = len(res)
+    res.append(catch(lambda: if_.add_else()))
+    ops_lit.append(gapp("OAddCase", gZ(0)))
+    return {"res": res, "ops_lit": ops_lit, "built": [res[-1] is not None, True], "n": 2, "session": session,
+            "diag": {}}
 
 
 def obs_exit(case, T):
@@ -359,7 +445,7 @@ def obs_exit(case, T):
             res.append(catch(lambda: cfg.branch(src, cfg.exit)))
         else:
             res.append(catch(lambda: cfg.branch_exit(src)))
-        rows.append([T(t) for t in variants[b["branch"]] + others])
+        rows.append([tid(T, t) for t in b["variants"][b["branch"]] + b["others"]])
     return {"res": res, "rows": rows}
 
 
@@ -379,8 +465,8 @@ def obs_fnout(case, T):
         if declared is not None:
             f.declare_outputs(declared)
     exc = catch(lambda: f.set_outputs(*make_row(f, case["given"])))
-    return {"exc": exc, "declared": None if declared is None else [T(t) for t in declared],
-            "given": [T(mk_type(t)) for t in case["given"]]}
+    return {"exc": exc, "declared": None if declared is None else [tid(T, t) for t in case["declared"]],
+            "given": [tid(T, t) for t in case["given"]]}
 
 
 def obs_call(case, T):
@@ -452,7 +538,10 @@ def obs_plainadd(case, T):
         exc = catch(lambda: b.extend(op(*args)))
     else:
         exc = catch(lambda: b.add(op(*args)))
-    return {"exc": exc, "grew": len(b.hugr) > before}
+    grew = len(b.hugr) > before
+    diag = {("plain add: refused with the HUGR unchanged" if exc is not None else
+             "plain add: accepted and the HUGR grew"): grew == (exc is None)}
+    return {"exc": exc, "grew": grew, "diag": diag}
 
 
 def obs_tidx(case, T):
@@ -479,7 +568,10 @@ def obs_tidx(case, T):
     else:
         exc = catch(lambda: d.set_indexed_outputs(d.inputs()[0], i))
     after = (len(d.hugr), list(d.tracked), len(list(d.hugr.links())))
-    return {"exc": exc, "table": table, "changed": before != after}
+    diag = {}
+    if exc is not None:
+        diag["tracked index: refused with HUGR and tracked list unchanged"] = before == after
+    return {"exc": exc, "table": table, "changed": before != after, "diag": diag}
 
 
 def obs_serialise(case, T):
@@ -735,9 +827,11 @@ class C13(fw.Prop):
             "session with >= 2 accepted calls")
     trusted = ["the interpreter of case descriptions (harness/props/c13.py) and its knowledge of which kind of "
                "port each constructed source node has and which guarded fields a container leaves unset",
-               "hierarchy read back as hugr[n].parent; types interned by Python ==",
-               "exception classes are compared by name"]
-    assumptions = ["hierarchies are parent-first (no node deletion before the refused call)"]
+               "hierarchy read back as hugr[n].parent, nodes named canonically (rank by depth, index); types "
+               "interned by Python == together with their spelling",
+               "exception classes are compared by name (first class of the MRO the property knows)",
+               "which refusals hugr-py documents a class for (C13Run.documented)"]
+    assumptions = ["the wire's target is the operation of the target builder, recorded or not by a refusal"]
 
     def __init__(self):
         self.T = TypeIds()
@@ -799,15 +893,11 @@ class C13(fw.Prop):
         k = case["kind"]
         grow = lambda r: glist(gN(x) for x in r)
         if k == "wire":
-            if o["tgt"] is None:
-                o = {**o, "tgt": 0}
             return gapp("KWire", gopt(None if o["blk"] is None else gpair(gnat(o["blk"][0]), gnat(o["blk"][1]))),
                         glist(gopt(None if p is None else gnat(p)) for p in o["pt"]),
-                        gnat(o["src"]), gnat(o["tgt"]), o["k"], gexc(o["exc"]),
-                        gopt(None if o["order"] is None else gpair(gnat(max(o["order"][0], 0)), gnat(max(o["order"][1], 0)))))
+                        gnat(o["src"]), gnat(o["tgt"]), o["k"], gexc(o["exc"]))
         if k in ("cond", "ifelse"):
-            return gapp("KCond", gnat(o["n"]), glist(o["ops_lit"]), glist(gexc(e) for e in o["res"]),
-                        glist(gbool(b) for b in o["built"]))
+            return gapp("KCond", gnat(o["n"]), glist(o["ops_lit"]), glist(gexc(e) for e in o["res"]))
         if k == "exit":
             return gapp("KExit", glist(grow(r) for r in o["rows"]), glist(gexc(e) for e in o["res"]))
         if k == "fnout":
@@ -816,10 +906,10 @@ class C13(fw.Prop):
             return gapp("KCall", o["k"], gnat(o["np"]), gbool(o["inst"]), gnat(o["nt"]), gexc(o["exc"]))
         if k == "plainadd":
             return gapp("KPlainAdd", glist(gapp("AI", gZ(a)) if is_int(a) else gapp("AW", gpair(gN(0), gN(a[1] % 2)))
-                                          for a in case["args"]), gexc(o["exc"]), gbool(o["grew"]))
+                                          for a in case["args"]), gexc(o["exc"]))
         if k == "tidx":
             return gapp("KTrackedIdx", glist(gopt(None if w is None else gpair(gN(w[0]), gN(w[1]))) for w in o["table"]),
-                        gZ(case["i"]), gexc(o["exc"]), gbool(o["changed"]))
+                        gZ(case["i"]), gexc(o["exc"]))
         if k == "serialise":
             return gapp("KSerialise", glist(glist("(Some [])" if f else "None" for f in n) for n in o["nodes"]), gexc(o["exc"]))
         raise AssertionError(k)
@@ -827,9 +917,10 @@ class C13(fw.Prop):
     def nontrivial(self, case, o):
         k = case["kind"]
         if k == "wire":
-            return o["exc"] is not None or o["order"] is not None or o["blk"] is not None
+            return o["exc"] is not None or o["inter"] or o["blk"] is not None
         if k in ("cond", "ifelse", "exit"):
-            return any(e is not None for e in o["res"]) or sum(1 for e in o["res"] if e is None) >= 2
+            res = o["res"][:o.get("session", len(o["res"]))]          # the final probes do not count
+            return any(e is not None for e in res) or sum(1 for e in res if e is None) >= 2
         return o["exc"] is not None
 
     def describe(self, case, obs):
@@ -894,6 +985,9 @@ class C13(fw.Prop):
             e["n"] += 1
             for x in (o["res"] if "res" in o else [o["exc"]]):
                 e["classes"][str(x)] = e["classes"].get(str(x), 0) + 1
+            for dk, dv in o.get("diag", {}).items():
+                df = d.setdefault("diagnostic only, no verdict (model drift): " + dk, {})
+                df[str(dv)] = df.get(str(dv), 0) + 1
             if k == "wire":
                 dd = e.setdefault("target_depth", {})
                 dd[str(o["depth_tgt"])] = dd.get(str(o["depth_tgt"]), 0) + 1
@@ -907,7 +1001,7 @@ class C13(fw.Prop):
                     ck[key] = ck.get(key, 0) + 1
                 if o["exc"] is None:
                     a = e.setdefault("accepted", {"sibling": 0, "inter_graph_with_order_edge": 0, "inter_block": 0})
-                    a["inter_graph_with_order_edge" if o["order"] else
+                    a["inter_graph_with_order_edge" if o["inter"] else
                       "inter_block" if o["blk"] and not o["sib"] else "sibling"] += 1
         return d
 
